@@ -199,6 +199,7 @@ class CLEngine(Engine):
         """state-directed scenario fragments; they expand into ordinary steps of the trace"""
         nb = self.config["brokers"]
         kind = draw(st.sampled_from(self.MACROS))
+        self.labels.add("script:" + kind)
         ti = draw(st.integers(0, len(self.tnames) - 1))
         nparts = len(self.config["topics"][ti]["leaders"])
         pi = draw(st.integers(0, nparts - 1))
@@ -214,6 +215,21 @@ class CLEngine(Engine):
 
         if kind == "warmup":
             return [["loadmd", []], ["run", 12], mk([(ti, pi)]), ["run", 12]]
+        if kind in ("closebusy", "closebackoff", "closeconnecting"):
+            # close() in a busy state: requests in flight on several brokers (some held), a broker in reconnect back-off, or a connection
+            # attempt still pending; then the connection-closed notifications in a drawn order
+            pairs = [(t, p) for t in range(len(self.tnames)) for p in range(len(self.config["topics"][t]["leaders"])) if self.config["topics"][t]["leaders"][p] > 0]
+            pairs = list(draw(st.permutations(pairs)))[:4] or [(ti, pi)]
+            api = {"produce": "produce", "fetch": "fetch", "offsets": "list_offsets"}[call]
+            tail = [["close"], ["ev", "lost", draw(st.integers(0, 2))], ["run", draw(st.integers(0, 4))], ["ev", "lost", draw(st.integers(0, 2))], ["run", 12], ["wait", 6], ["run", 8]]
+            if kind == "closebusy":
+                return [["loadmd", []], ["run", 12], mk(pairs), ["run", 14], ["hold", b, api], mk(pairs), mk(pairs[:1]), ["run", draw(st.integers(0, 5))]] + tail
+            leader = self.config["topics"][pairs[0][0]]["leaders"][pairs[0][1]]
+            node = leader if leader > 0 else b
+            if kind == "closebackoff":
+                return [["loadmd", []], ["run", 12], mk(pairs[:1]), ["run", 10], [draw(st.sampled_from(["refuse", "refusesync"])), node], ["drop", 0, 0], ["drop", 0, 0], ["drop", 0, 0], ["run", 6], mk(pairs[:1]),
+                        ["run", draw(st.integers(0, 4))], ["wait", draw(st.integers(0, 2))]] + tail
+            return [["loadmd", []], ["run", 12], mk(pairs), ["ev", "srv", 0], ["run", draw(st.integers(0, 2))]] + tail
         if kind == "noconn":
             # a warm call (also one that expects no reply) to a known broker whose connection cannot be re-established
             leader = self.config["topics"][ti]["leaders"][pi]
@@ -1202,6 +1218,12 @@ class CLEngine(Engine):
                 if wrote[0]["evseq"] > t_boot:
                     self.note("C07.fallback", "C07.fallback/bootstrap-before-brokers", "call #%d: bootstrap hosts were used before known broker %r received the request" % (c.no, n))
             elif not pend:
+                earlier = [a for a in w.attempt_log if getattr(a.factory, "node_id", None) == n and getattr(a, "evseq", 0) < c.evseq0]
+                if earlier and earlier[-1].outcome in ("refused", "refused-sync", "timeout"):
+                    # the broker's client is between reconnection attempts (back-off): the request waited in its queue until it timed
+                    # out, which is "tried" although neither a write nor an attempt falls into the call's lifetime
+                    self.labels.add("fallback-with-broker-in-reconnect-backoff")
+                    continue
                 self.note("C07.fallback", "C07.fallback/known-broker-not-tried", "broker-agnostic call #%d failed as unavailable but known broker %r (%s:%s) was never tried" % (c.no, n, h, p))
         order.sort()
         seen_unconnected = False
